@@ -236,6 +236,18 @@ class Run:
         self.tier = a.tier if a.tier in ("quick", "thorough") else "quick"
         self.seed = a.seed
         self.replay = a.replay
+        if self.replay:
+            # a replay re-runs the check with the seed and tier recorded in the replay file (every random choice
+            # derives from the seed, so the same cases are regenerated) and prints the recorded failing inputs first
+            try:
+                rp = json.loads(Path(self.replay).read_text())
+                self.seed = int(rp.get("seed", self.seed))
+                self.tier = rp.get("tier", self.tier)
+                print(f"replaying {self.replay}: kind={rp.get('kind')} seed={self.seed} tier={self.tier}")
+                for f in rp.get("failures", [])[:10]:
+                    print(f"  recorded failing input [{f.get('site')}]: {json.dumps(f.get('case'), default=str)[:300]} -> {str(f.get('what'))[:200]}")
+            except Exception as e:
+                raise Infra(f"cannot read replay file {self.replay}: {e}")
         self.rng = random.Random(self.seed * 1000003 + sum(map(ord, prop)))
         self.t0 = time.monotonic()
         self.obligations: list[str] = []
